@@ -8,17 +8,19 @@ import numpy as np
 import common as C
 
 PID = "C09"
-DRIVER = [("C09", "TfPwaV.Gen.ErrPropF", "ErrPropF.handle")]
-LEAN_TARGETS = ["TfPwaV.Props.C09", "TfPwaV.Gen.ErrPropF"]
-PROP_MODULES = ["TfPwaV.Props.C09"]
-ALL_MODULES = ["TfPwaV.Proofs.ErrProp", "TfPwaV.Props.C09", "TfPwaV.Proofs.ScalarR", "TfPwaV.Gen.ErrPropR"]
+DRIVER = [("C09", "TfPwaV.Gen.ErrPropF", "ErrPropF.handle"), ("C09x", "TfPwaV.Gen.ErrCtxF", "ErrCtxF.handle")]
+LEAN_TARGETS = ["TfPwaV.Props.C09", "TfPwaV.Props.C09b", "TfPwaV.Props.C09c", "TfPwaV.Gen.ErrPropF", "TfPwaV.Gen.ErrCtxF"]
+PROP_MODULES = ["TfPwaV.Props.C09", "TfPwaV.Props.C09b", "TfPwaV.Props.C09c"]
+ALL_MODULES = ["TfPwaV.Proofs.ErrProp", "TfPwaV.Proofs.ErrCtx", "TfPwaV.Props.C09", "TfPwaV.Props.C09b", "TfPwaV.Props.C09c", "TfPwaV.Proofs.ScalarR",
+               "TfPwaV.Gen.ErrPropR", "TfPwaV.Gen.ErrCtxR"]
 ASSUMPTIONS = [
     "IEEE double evaluation of the same formula text (Lean Float vs python/numpy) agrees to 1e-12 relative per NumberError operator and 1e-9 (relative to the largest entry) for the fit-fraction assembly; libm pow/log/exp differences are inside that tolerance",
-    "NumberError theorems assume non-negative input errors and the domain where the derivative exists (positive base for x**y with uncertain or fractional exponent and for log, non-zero divisor); Real.rpow is the model of python's float power on that domain",
-    "apply()/cal_err() without grad use a central difference: proved exact for polynomials of degree <= 2 (applyFD_rule_partial); the O(dx^2) truncation error for general functions is validated by the search, not bounded by a theorem",
-    "inputs of the fit-fraction assembly (integrals and tape gradients of the amplitude), dy/dx of the sympy Bound functions and numpy.linalg.inv of the Hessian are parameters of the model; that they are the true gradients / inverse is validated by finite differences on the implementation (search), not proved (TensorFlow autodiff: see C07)",
-    "force_pos_def / force_pos_def_minuit2 repairs for a non-positive-definite Hessian are outside the property's hypothesis and not claimed; cal_hesse_correct's finite-difference Hessian entries are not modelled",
-    "ParamsTrans.get_error / get_error_matrix are validated against finite-difference Jacobians on the implementation only (search)",
+    "NumberError theorems assume non-negative input errors and the domain where the derivative exists (positive base for x**y with uncertain or fractional exponent and for log, non-zero divisor; a negative base is covered for exponents >= 1 only); Real.rpow is the model of python's float power on that domain",
+    "apply()/cal_err() without grad use a central difference: proved exact for polynomials of degree <= 2, = f'(x) + c3 dx^2 on cubics, and for every differentiable f equal to (f'(x+t)+f'(x-t))/2 with 0<t<dx, hence within L*dx*sigma of the propagation when f' is L-Lipschitz on [x-dx,x+dx] (applyFD_rule_remainder); the O(dx^2) order for general C^3 functions is validated by the search, not proved",
+    "inputs of the fit-fraction assembly (per-batch integrals and tape gradients of the amplitude), dy/dx of the sympy Bound functions, the per-variable Jacobian blocks returned by tf.GradientTape.jacobian/gradient inside ParamsTrans, numpy.linalg.inv / pinv / eig are parameters of the model with their contracts as theorem hypotheses (right inverse; eigenvalue with a non-zero eigenvector; block p entry a = d y_a / d x_p); that the runtime meets the contracts is validated by finite differences / exact integer Jacobians on the implementation (search, correspondence), not proved (TensorFlow autodiff: see C07)",
+    "the gradient of a batch sum is taken to be the sum of the per-event gradients (linearity of the tape) in evalBatch; numpy's sum(0) over the batch axis and python's left-to-right sum are the same real number",
+    "force_pos_def / force_pos_def_minuit2 for a NON-positive-definite Hessian are modelled (all three branches, numpy view aliasing of `diag`, eigenvalues of the triangular p = its diagonal) and compared with the code, but nothing is claimed about the repaired matrix (outside the property's hypothesis); with numpy >= 2 np.linalg.eig returns complex dtype, the comparison uses the real parts when all imaginary parts are exactly 0",
+    "cal_hesse_correct: the whole loop is in the model and compared bit-for-bit with the code on a synthetic FCN over a real VarsManager; the theorems are per entry (one pass of the loop body on the list state, every n / point / step) — the fold over corr_params x variables (which entries are visited, symmetry of the result) is validated by the search on quadratics, not proved",
 ]
 
 # --------------------------------------------------------------------------------------------------
@@ -459,6 +461,10 @@ def correspond(ctx, res):
     })
     res.samples += [{"op": lines[k][:160], "model": out[k][:120]} for k in (0, 3, len(cases))]
 
+    # the code around the rules: cal_hesse_correct, force_pos_def, cal_hesse_error flags, ParamsTrans, batches
+    import c09_ctx
+    c09_ctx.correspond_ctx(ctx, res, S)
+
 
 # --------------------------------------------------------------------------------------------------
 # search: the statement itself on the implementation, oracle = finite differences
@@ -733,6 +739,9 @@ def search(ctx, res):
             break
     res.coverage["search_cases"] = int(nck + nff)
 
+    import c09_ctx
+    c09_ctx.search_ctx(ctx, res, S, hard)
+
 
 def replay(ctx, payload):
     rp = payload.get("replay") or {}
@@ -751,7 +760,7 @@ def replay(ctx, payload):
 
 
 MANIFEST = {
-    "text": "Lean theorems over the reals (HasDerivAt) for ALL operands: every NumberError operator (add sub neg mul div pow rpow log exp apply, NumberError or plain second operand) returns err = sqrt(sum (df/dx_k)^2 sigma_k^2) >= 0 with the true partial derivatives; cal_err with a supplied gradient is sqrt(J diag(sigma^2) J^T); the fit-fraction gradients g_i/I - (I_i/I) g/I, the interference combination and sum_diag are the derivatives of the fractions along every line in parameter space and the reported error squared is g V g; trans_error_matrix is J V J^T for the diagonal Jacobian of the bound map; for a positive-definite Hessian diag(H^-1) > 0 so sqrt(fabs(.)) is the plain root. The unpatched text of scalar mul, div (both forms), pow with uncertain exponent and rpow is REFUTED on concrete witnesses (negative error, ln of the wrong argument), replayed on tf_pwa.err_num.",
-    "note": "Model = templates/ErrProp.lean.in instantiated at R (proofs) and Float (execution). The five defective operators exist in the template as patched (fix_err_num.diff) and Legacy text; the differential run decides which one the tree implements, and the finite-difference search reports the defect under per-operator keys (known findings on the unpatched tree, silent on the patched tree). Tie to the code: NumberError/cal_err on seeded operands incl. negative values (1e-12), FitFractions.get_frac and fit_fractions old/new on a real spin-1 three-resonance amplitude, trans_error_matrix with sympy bounds, cal_hesse_error, get_params_error(using_cached). Search (model-independent): central differences of the plain float functions; finite differences of the fraction itself along random directions with a covariance built on those directions; FD Jacobians for bounds and ParamsTrans. Tape gradients, numpy inverse and sympy derivatives are parameters of the model (validated by the search, not proved); force_pos_def repairs and cal_hesse_correct are not covered.",
-    "technique": "Lean 4 proof over the reals (Mathlib HasDerivAt, uniqueness of derivatives) of one template instantiated at Float for differential correspondence, plus refutation theorems for the unpatched operator text and finite-difference search on the implementation",
+    "text": "Lean theorems over the reals (HasDerivAt) for ALL operands: every NumberError operator (add sub neg mul div pow rpow log exp apply, NumberError or plain second operand) returns err = sqrt(sum (df/dx_k)^2 sigma_k^2) >= 0 with the true partial derivatives (op_rule_is_jvj, full statement for the patched text); apply() without grad reports |f'(x) + R| sigma with the explicit remainder R = (f'(x+t)+f'(x-t))/2 - f'(x), |R| <= L dx for L-Lipschitz f', R = c3 dx^2 on cubics (so it is NOT exact: applyFD_cubic_not_exact); cal_err with a supplied gradient is sqrt(J diag(sigma^2) J^T); the fit-fraction gradients g_i/I - (I_i/I) g/I, the interference combination and sum_diag are the derivatives of the fractions along every line in parameter space and the reported error squared is g V g; the accumulated integrals/gradients are independent of the batching (any batch sizes / order: frac_grad_batch_invariant) and the accumulated gradient is the gradient of the accumulated integral; ParamsTrans.get_error_matrix / get_error return J V J^T / sqrt(diag) for the true Jacobian J for list, vector and row-major flattened tensor outputs with the index convention (J V J^T)[a,b] = sum_ij J[a,i] V[i,j] J[b,j] as a theorem, and composed with trans_error_matrix they are the chain rule for f o bound (bound_then_params_trans); trans_error_matrix is J V J^T for the diagonal Jacobian of the bound map; cal_hesse_correct's 5-point and 4-point second differences are exact on every quadratic NLL in every dimension, point, direction and step and return THE second derivative, with explicit remainders 10 p4 eps^2 / (q31+q13) eps^2 on quartics, and put the coordinates back; for a positive-definite Hessian force_pos_def, force_pos_def_minuit2 and cal_hesse_error (every flag combination) return THE unique inverse unchanged, diag(H^-1) > 0 and the errors are its plain roots. REFUTED on concrete witnesses: the unpatched scalar mul, div (both forms), pow with uncertain exponent, rpow; the cal_hesse_correct diagonal before f92d030; the get_error_matrix(tensor) assembly before 680c99c.",
+    "note": "Models = templates/ErrProp.lean.in (rules) and templates/ErrCtx.lean.in (context: cal_hesse_correct statement sequences and loop, force_pos_def, force_pos_def_minuit2, cal_hesse_error branch, ParamsTrans assembly, batch accumulation), instantiated at R (proofs) and Float (execution). Defective/legacy texts exist next to the current ones; the differential run decides which one the tree implements. Tie to the code: NumberError/cal_err on seeded operands incl. negative values (1e-12); FitFractions.get_frac and fit_fractions old/new on a real spin-1 three-resonance amplitude; per-batch eval_integral pieces vs cached totals; trans_error_matrix with sympy bounds; cal_hesse_error with all flag combinations on PD and indefinite Hessians; force_pos_def in all three branches; cal_hesse_correct over a real VarsManager with a synthetic quadratic+quartic FCN and arbitrary corr_params subsets/orders (bit-exact); the real ParamsTrans on a toy VarsManager with bilinear user functions and integer covariance (J V J^T compared EXACTLY, list / vector / 2x2 tensor / scalar, tape blocks as the model's input); error_trans(trans_error_matrix(V)) vs both sides of the chain-rule identity. Search (model-independent): central differences of the plain float functions; finite differences of the fraction itself along random directions; FD Jacobians for bounds, ParamsTrans (also f o bound, 2x2 tensors, mask_params); exact Hessian of quadratics for cal_hesse_correct subsets; H^-1 for every PD path and flag; batch-size invariance of fractions and errors. Still validated only: tape gradients / numpy inverse, pinv, eig / sympy derivatives meet their contracts; the fold of cal_hesse_correct over corr_params x variables; the O(dx^2) order of the central difference for general C^3 functions; everything force_pos_def does to a non-positive-definite matrix is compared with the code but not claimed.",
+    "technique": "Lean 4 proof over the reals (Mathlib HasDerivAt, uniqueness of derivatives, mean value theorem, finite sums, list inductions) of two templates instantiated at Float for differential correspondence (bit-exact / exact-integer where possible), plus refutation theorems for the legacy texts and finite-difference / exact-oracle search on the implementation",
 }
